@@ -484,10 +484,27 @@ class VM:
             a = self.stack.pop()
             b_num = to_number(b)
             a_num = to_number(a)
-            if b_num == 0:
+            if (
+                b_num == 0
+                or math.isnan(a_num)
+                or math.isnan(b_num)
+                or math.isinf(a_num)
+            ):
                 self.stack.append(float("nan"))
+            elif math.isinf(b_num):
+                self.stack.append(a_num)
             else:
-                self.stack.append(a_num % b_num)
+                # The result takes the sign of the dividend (truncated
+                # division), unlike Python's floored %.
+                if isinstance(a_num, int) and isinstance(b_num, int):
+                    result = abs(a_num) % abs(b_num)
+                    if a_num < 0:
+                        result = -result if result else -0.0
+                else:
+                    result = math.fmod(a_num, b_num)
+                    if result == 0:
+                        result = math.copysign(0.0, a_num)
+                self.stack.append(result)
 
         elif op == OpCode.POW:
             b = self.stack.pop()
